@@ -257,11 +257,19 @@ def decode_json_container(jc, bundle):
                                 value = values[0]
                         else:
                             value = values
+                        original_value = value
                         value = (
                             valid_qualified_name(bundle, value)
                             if attr in PROV_ATTRIBUTE_QNAMES
                             else parse_xsd_datetime(value)
                         )
+                        if value is None and original_value is not None:
+                            # not a name / a time this package can represent:
+                            # report it instead of dropping the attribute
+                            raise ProvJSONException(
+                                "Invalid value for attribute %s: %s"
+                                % (attr, original_value)
+                            )
                         attributes[attr] = value
                     else:
                         if isinstance(values, list):
